@@ -1,7 +1,7 @@
 use lexical_parse_float::lemire::compute_float;
 fn main() {
-    for (q, w) in [(-256i64, 1u64 << 63), (304, 18253476135101533867u64)] {
-        let a = compute_float::<f64>(q, w, false);
-        println!("q={q} w={w:#x} -> mant={:#x} exp={} (exp-INVALID={})", a.mant, a.exp, a.exp - (i16::MIN as i32));
+    for (q, w) in [(-39i64, 10114952411948569017u64), (-57, 11754943255890205170u64)] {
+        let a = compute_float::<f32>(q, w, false);
+        println!("f32 q={q} w={w:#x} -> mant={:#x} exp={} (exp-INVALID={})", a.mant, a.exp, a.exp - (i16::MIN as i32));
     }
 }
